@@ -322,6 +322,7 @@ type Options struct {
 	Reshape     bool // reshape transitions + C02 observations
 	Writes      bool // C01 write footprints
 	WritePairs  bool
+	OpPairs     bool // every ordered pair of write operations through the same view object (small roots, depth <= 1)
 	BulkPairs   bool // two-array operations
 	Steps       []int
 	MaxFailures int
